@@ -20,14 +20,14 @@ type vTypeRecorder struct {
 	calls       int
 }
 
-func (r *vTypeRecorder) Typed(t, f string)                     { r.typ, r.format = t, f; r.calls++ }
-func (r *vTypeRecorder) SetRef(spec.Ref)                       {}
-func (r *vTypeRecorder) Items() swaggerTypable                 { return r }
-func (r *vTypeRecorder) Schema() *spec.Schema                  { return nil }
-func (r *vTypeRecorder) Level() int                            { return 0 }
+func (r *vTypeRecorder) Typed(t, f string)                      { r.typ, r.format = t, f; r.calls++ }
+func (r *vTypeRecorder) SetRef(spec.Ref)                        {}
+func (r *vTypeRecorder) Items() swaggerTypable                  { return r }
+func (r *vTypeRecorder) Schema() *spec.Schema                   { return nil }
+func (r *vTypeRecorder) Level() int                             { return 0 }
 func (r *vTypeRecorder) AddExtension(key string, v interface{}) {}
-func (r *vTypeRecorder) WithEnum(...interface{})               {}
-func (r *vTypeRecorder) WithEnumDescription(desc string)       {}
+func (r *vTypeRecorder) WithEnum(...interface{})                {}
+func (r *vTypeRecorder) WithEnumDescription(desc string)        {}
 
 type vKind struct {
 	name   string
